@@ -82,16 +82,18 @@ func c12Judge(pats []string, m pattern.Mode, s string) (class, detail string, no
 		// The statement fixes the extent only for one pattern; for a list it
 		// demands "matches exactly when one of them does".  Accept any
 		// prefix/suffix that one of the patterns matches as a whole.
-		rs, rg := []rune(s), []rune(got)
-		if m&pattern.Prefix != 0 && strings.HasPrefix(s, got) || m&pattern.Prefix == 0 && strings.HasSuffix(s, got) {
-			_ = rs
-			for _, e := range es {
-				if matchWhole(e, rg) {
+		// It must still be the shortest / longest portion for (at least) one pattern of the list taken alone: the
+		// mode applies to every alternative, whichever of them is preferred.
+		var extents []string
+		for _, e := range es {
+			if x, ok1 := refMatch([][]pelem{e}, m&pattern.Prefix != 0, m&pattern.Largest == 0 && m&pattern.Smallest != 0, []rune(s)); ok1 {
+				if x == got {
 					return "", "", nontrivial
 				}
+				extents = append(extents, x)
 			}
 		}
-		return "list-mismatch", fmt.Sprintf("Match(%q, %d, %q) = %q; no pattern of the list matches that portion as a whole", pats, m, s, got), true
+		return "list-mismatch", fmt.Sprintf("Match(%q, %d, %q) = %q; taken alone the patterns of the list give %q: the result is not the shortest/longest portion for any of them", pats, m, s, got, extents), true
 	}
 	if ok != (err == nil) || ok && want != got {
 		cl := "mismatch"
